@@ -502,11 +502,12 @@ func HandleNewFolder(cc *hotline.ClientConn, t *hotline.Transaction) (res []hotl
 			subPath = filepath.Join("/", subPath, string(pathItem.Name))
 		}
 	}
-	newFolderPath := path.Join(cc.FileRoot(), subPath, folderName)
-	newFolderPath, err := txtDecoder.String(newFolderPath)
+	// Only what the client sent is Mac Roman; the file root is a path of this machine.
+	newFolderPath, err := txtDecoder.String(path.Join(subPath, folderName))
 	if err != nil {
 		return res
 	}
+	newFolderPath = path.Join(cc.FileRoot(), newFolderPath)
 
 	// TODO: check path and folder Name lengths
 
